@@ -63,6 +63,12 @@ pub fn copy_store_files(src: &Path, dst: &Path) -> std::io::Result<()> {
 
 impl pocket_db::verif::Hooks for SeqHooks {
     fn point(&self, name: &'static str) {
+        // `y:` points are places where another thread may run (concurrent mode); they lie between
+        // two engine calls of one transaction, where a kill leaves the same files as at the
+        // neighbouring kill points
+        if name.starts_with("y:") {
+            return;
+        }
         let mut st = self.st.lock().unwrap();
         if !st.recording {
             return;
